@@ -6,7 +6,7 @@
 From DV Require Import RightsSpec RightsP RoomNode RoomNodeP Run_C07 C07P.
 
 (* the full statement, on what the model says the implementation observes; it is REFUTED on the
-   current tree by the two witnesses of the open classes 1 and 2 below.  What holds for every input is (1)-(4). *)
+   current tree by the witnesses of the open classes 1, 2 and 5 below.  What holds for every input is (1)-(4). *)
 Definition C07_full : Prop := forall c, spec_C07 c (run_C07 c) = true.
 
 (* (1) monotone, for every room held and every candidate: an accepted update never removes or alters a
@@ -80,6 +80,11 @@ Print Assumptions C07_refuted_1.
 Theorem C07_refuted_2 : accepted_and_fails wk2 2.
 Proof. exact refuted_k2. Qed.
 Print Assumptions C07_refuted_2.
+(* class 5 (same-date tie): "key 5 administrator" signed by key 2 at the very date key 2 is revoked, listed
+   before the revocation, is accepted; listed after it, or dated later in either order, it is refused *)
+Theorem C07_refuted_5 : accepted_and_fails wk5 5 /\ run_C07 wk5' = [151] /\ run_C07 wk5l = [151] /\ known_C07 wk5l = [].
+Proof. exact refuted_k5. Qed.
+Print Assumptions C07_refuted_5.
 (* the witness of the repaired class 3 is refused now and the oracle holds on it *)
 Theorem C07_class3_witness_holds : known_C07 wk3 = [] /\ run_C07 wk3 = [141] /\ spec_C07 wk3 (run_C07 wk3) = true.
 Proof. exact repaired_k3. Qed.
